@@ -552,6 +552,83 @@ theorem foldTelegrams_tx (f : Ctx → Telegram → Bool → Res)
       simp only [Res.bind] at h
       rw [ih c1 c' h, hf c c1 t l h1]
 
+/-! ## The sweep does not depend on spare fuel -/
+
+theorem sweepFrom_stable (ts ns hsa : Nat) : ∀ fuel cur, (sweepFrom ts ns hsa fuel cur).length < fuel →
+    sweepFrom ts ns hsa (fuel + 1) cur = sweepFrom ts ns hsa fuel cur := by
+  intro fuel
+  induction fuel with
+  | zero => intro cur h; simp at h
+  | succ f ih =>
+    intro cur h
+    rw [sweepFrom.eq_def ts ns hsa (f + 1 + 1) cur, sweepFrom.eq_def ts ns hsa (f + 1) cur]
+    simp only
+    rw [sweepFrom.eq_def ts ns hsa (f + 1) cur] at h
+    simp only at h
+    cases hn : nextGapPoll ts ns hsa cur with
+    | poll a =>
+      simp only [hn] at h ⊢
+      rw [ih a (by simpa using h)]
+    | waiting => rfl
+    | panic => rfl
+
+theorem sweepFrom_cons (ts ns hsa f cur a : Nat) (hn : nextGapPoll ts ns hsa cur = .poll a)
+    (hl : (sweepFrom ts ns hsa f a).length < f) :
+    sweepFrom ts ns hsa (f + 1) cur = a :: sweepFrom ts ns hsa (f + 1) a := by
+  rw [sweepFrom.eq_def ts ns hsa (f + 1) cur]
+  simp only [hn]
+  rw [sweepFrom_stable ts ns hsa f a hl]
+
+theorem sweepFrom_length_le (ts ns hsa : Nat) (hts : ts < hsa) (hh2 : hsa ≤ 126) :
+    ∀ fuel cur, cur < hsa → (sweepFrom ts ns hsa fuel cur).length + off ts hsa cur ≤ hsa - 1 := by
+  intro fuel
+  induction fuel with
+  | zero => intro cur hc; have := off_lt ts hsa cur hts hc; simp [sweepFrom]; omega
+  | succ f ih =>
+    intro cur hc
+    unfold sweepFrom
+    have heq := nextGapPoll_eq ts ns hsa cur (by omega) hh2 hc
+    cases hn : nextGapPoll ts ns hsa cur with
+    | poll x =>
+      rw [hn] at heq
+      split at heq
+      · rename_i hin
+        cases heq
+        have ho := off_succ ts hsa cur hts hc hin.2.1
+        have := ih (succAddr hsa cur) hin.1
+        simp only [List.length_cons]
+        omega
+      · cases heq
+    | waiting => have := off_lt ts hsa cur hts hc; simp; omega
+    | panic => have := off_lt ts hsa cur hts hc; simp; omega
+
+/-- One step of the full sweep (fuel HSA): `next_gap_poll(cur) = a` splits off its head. -/
+theorem sweepFrom_step (ts ns hsa cur a : Nat) (hts : ts < hsa) (hh2 : hsa ≤ 126) (hc : cur < hsa)
+    (hn : nextGapPoll ts ns hsa cur = .poll a) :
+    sweepFrom ts ns hsa hsa cur = a :: sweepFrom ts ns hsa hsa a ∧ a < hsa ∧ a ≠ ts := by
+  have heq := nextGapPoll_eq ts ns hsa cur (by omega) hh2 hc
+  rw [hn] at heq
+  split at heq
+  · rename_i hin
+    cases heq
+    refine ⟨?_, hin.1, hin.2.1⟩
+    obtain ⟨f, hf⟩ : ∃ f, hsa = f + 1 := ⟨hsa - 1, by omega⟩
+    have hlen := sweepFrom_length_le ts ns hsa hts hh2 f (succAddr hsa cur) hin.1
+    have hoff : 0 < off ts hsa (succAddr hsa cur) := by
+      have := off_zero_iff ts hsa (succAddr hsa cur) hts hin.1
+      have hne : off ts hsa (succAddr hsa cur) ≠ 0 := fun h0 => hin.2.1 (this.mp h0)
+      omega
+    have h1 := sweepFrom_cons ts ns hsa f cur (succAddr hsa cur) hn (by omega)
+    rw [← hf] at h1
+    exact h1
+  · cases heq
+
+theorem sweepFrom_end (ts ns hsa fuel cur : Nat) (hn : nextGapPoll ts ns hsa cur = .waiting) :
+    sweepFrom ts ns hsa fuel cur = [] := by
+  cases fuel with
+  | zero => rfl
+  | succ f => simp [sweepFrom, hn]
+
 /-! ## One whole poll -/
 
 theorem checkBusActivity_core (s : Station) (now : Int) (n : Nat) :
@@ -629,6 +706,53 @@ def gapPolls (s : Station) (apps : Apps) : List (Int × Bool × Bytes) → Optio
         let k := if ph ≠ 0 ∧ isSd1 c'.tx = true then 1 else 0
         if ph ≠ 0 ∧ phase c'.s.st = some 0 then some k
         else (gapPolls c'.s c'.apps rest).map (· + k)
+
+/-! ## The post-claim sweep as a run of polls -/
+
+/-- The scanning steps of `ClaimToken` (after the two claiming token telegrams). -/
+def inScan : FState → Bool
+  | .claimToken .scan | .claimToken (.scanAwait _) => true
+  | _ => false
+
+/-- The GAP addresses still to be polled in the running sweep, for the present ring view. -/
+def remaining (s : Station) : List Nat :=
+  match s.gap with
+  | .doPoll cur => sweepFrom s.p.address s.ring.ns s.p.hsa s.p.hsa cur
+  | .waiting _ => []
+
+/-- … as the status-request telegrams that will go to the PHY. -/
+def reqs (s : Station) : List Bytes := (remaining s).map fun a => statusRequestBytes a s.p.address
+
+theorem reqs_congr (s s' : Station) (h1 : s'.p = s.p) (h2 : s'.ring = s.ring) (h3 : s'.gap = s.gap) :
+    reqs s' = reqs s := by
+  simp [reqs, remaining, h1, h2, h3]
+
+/-- No complete telegram is waiting in the receive buffer. -/
+def Silent (rx : Bytes) : Prop := ∃ rx' ret, receiveTelegram rx = .done rx' [] ret
+
+/-- The part of the C05 station invariant the scan relies on. -/
+structure ScanOk (s : Station) : Prop where
+  addr : s.p.address < s.p.hsa
+  hsa : s.p.hsa ≤ 126
+  gap : ∀ cur, s.gap = .doPoll cur → cur < s.p.hsa
+  await : ∀ a, s.st = .claimToken (.scanAwait a) → s.gap = .doPoll a ∧ a ≠ s.p.address
+
+/-- What one poll of the scan achieves: what it transmits is exactly the head of what remained to
+be polled; parameters and ring view are untouched; the scan goes on, or it is complete and the
+station is about to pass the token. -/
+def StepOk (s : Station) (c' : Ctx) : Prop :=
+  c'.tx.toList ++ reqs c'.s = reqs s ∧ c'.s.p = s.p ∧ c'.s.ring = s.ring ∧
+  ((inScan c'.s.st = true ∧ ScanOk c'.s) ∨ (c'.s.st = .passToken false .first ∧ remaining c'.s = []))
+
+/-- The telegrams transmitted by the successive polls `ins` while the station is scanning, and the
+station afterwards.  `none` = a poll panicked. -/
+def claimRun (s : Station) (apps : Apps) : List (Int × Bool × Bytes) → Option (List Bytes × Station)
+  | [] => some ([], s)
+  | (now, phyTx, rx) :: rest =>
+    if inScan s.st = false then some ([], s) else
+    match s.poll apps now phyTx rx with
+    | .panic _ => none
+    | .ok c' => (claimRun c'.s c'.apps rest).map fun r => (c'.tx.toList ++ r.1, r.2)
 
 end StationGap
 end PV
